@@ -454,6 +454,13 @@ func (t *fnTrans) vc(o *Obligation, weakIx bool) string {
 		b.WriteString("(get-value (" + q + "))\n")
 	}
 	text := b.String()
+	if strings.Contains(text, "(str_lt ") && strings.Count(text, "(str_lt ") >= 2 {
+		// Go's string order is a strict total order
+		ax := "(assert (forall ((sa Str)) (! (not (str_lt sa sa)) :pattern ((str_lt sa sa)))))\n" +
+			"(assert (forall ((sa Str) (sb Str)) (! (and (=> (str_lt sa sb) (not (str_lt sb sa))) (=> (not (= sa sb)) (or (str_lt sa sb) (str_lt sb sa)))) :pattern ((str_lt sa sb)))))\n" +
+			"(assert (forall ((sa Str) (sb Str) (sc Str)) (! (=> (and (str_lt sa sb) (str_lt sb sc)) (str_lt sa sc)) :pattern ((str_lt sa sb) (str_lt sb sc)))))\n"
+		text = strings.Replace(text, "(declare-fun unix (Int Int) Int)\n", "(declare-fun unix (Int Int) Int)\n"+ax, 1)
+	}
 	if strings.Count(text, "(fieldaddr ") >= 2 {
 		// the address of a field determines the object and the field (two field addresses are equal only if both agree)
 		ax := "(declare-fun fieldaddr_id (Int) Int)\n(declare-fun fieldaddr_obj (Int) Int)\n" +
